@@ -634,6 +634,7 @@ extern "C" int engineexport_finalize ()
       delete global_grid_algo;
     else
       delete global_graph_algo;
+    global_algo_freed = true;
 
     return 0;
     }
